@@ -35,6 +35,8 @@ type Bounds struct {
 	Params       map[string]int `json:"params"`
 	ExpectPanic  string         `json:"expect_panic"`
 	NoIfConv     bool           `json:"no_ifconv"`
+	TimeMode     string         `json:"time_mode"`
+	MaxTimerFires int           `json:"max_timer_fires"`
 }
 
 type HarnessSpec struct {
@@ -162,7 +164,12 @@ func buildOverlay(spec *HarnessSpec, verifRoot string) (map[string][]byte, error
 		if m == nil {
 			return nil, fmt.Errorf("no package clause in %s", f)
 		}
-		pkgName = string(m[1])
+		if strings.HasPrefix(f, "common/") {
+			// shared helper: takes the package name of the harness files listed before it
+			src = []byte(strings.Replace(string(src), "package PKG", "package "+pkgName, 1))
+		} else {
+			pkgName = string(m[1])
+		}
 		vp := filepath.Join("/repo", spec.Pkg, "zz_vrt_"+strings.ReplaceAll(f, "/", "_"))
 		ov[vp] = src
 	}
